@@ -1,9 +1,12 @@
 import Dm.Driver.FmtCmd
+import Dm.Driver.FmtXCmd
 
 /- Line-protocol driver of the Lean model: one request per line, one answer per line. -/
 
 def handle (line : String) : String :=
-  match line.trimAscii.toString.splitOn " " with
+  let l := line.trimAscii.toString
+  if l.startsWith "fx " then Dm.FmtXCmd.cmdFx (l.drop 3).toString else
+  match l.splitOn " " with
   | "fmt" :: args => Dm.FmtCmd.cmdFmt args
   | "std" :: args => Dm.FmtCmd.cmdStd args
   | _ => "bad-op"
